@@ -91,7 +91,6 @@ pub fn varlink_exec<S: ?Sized + AsRef<str>>(
             .env("LISTEN_FDNAMES", "varlink")
             .pre_exec(move || {
                 // only async-signal-safe calls between fork and exec
-                dup2(2, 1);
                 if fd != 3 {
                     dup2(fd, 3);
                     close(fd);
@@ -99,6 +98,14 @@ pub fn varlink_exec<S: ?Sized + AsRef<str>>(
                     // the listener already is descriptor 3: keep it open across exec
                     let flags = fcntl(3, F_GETFD);
                     fcntl(3, F_SETFD, flags & !FD_CLOEXEC);
+                }
+                // the service's stdout goes to our stderr, after the listener has been moved
+                // (it may have been descriptor 1) and only if descriptor 2 is ours to give:
+                // a close-on-exec descriptor 2 is not the caller's stderr but a reused number
+                // (e.g. the status pipe of `spawn` itself, which must not survive the exec)
+                let flags2 = fcntl(2, F_GETFD);
+                if flags2 >= 0 && flags2 & FD_CLOEXEC == 0 {
+                    dup2(2, 1);
                 }
                 Ok(())
             })
